@@ -280,19 +280,21 @@ fn replicated(v: &Verdicts, runs: usize, seed0: u64) -> (u64, u64) {
                     break;
                 }
                 let mut r = Rng::new(seed0.wrapping_mul(1_234_577).wrapping_add(i as u64));
-                let n = 2 + (i % 2);
+                // every third run: three nodes, the second writer sits on a secondary
+                let cross = i % 3 == 2;
+                let n = if cross { 3 } else { 2 + (i % 2) };
                 let Some(mut c) = form_cluster(n, r.next(), "c19") else {
                     inconclusive.fetch_add(1, std::sync::atomic::Ordering::SeqCst);
                     continue;
                 };
                 c.open_session("a", 0);
-                c.open_session("b", 0);
+                c.open_session("b", if cross { 1 } else { 0 });
                 for l in ["auth admin pwd", "create-db nw tok newer", "use-db nw tok", "set k base0", "set k base1"] {
                     c.send("a", l);
                 }
                 let _ = c.run_until_quiet();
                 c.call("b", "use-db nw tok");
-                let concurrent = i % 2 == 1;
+                let concurrent = cross || i % 2 == 1;
                 let mut lines = vec![];
                 for s in ["a", "b"] {
                     for j in 0..r.range(1, 3) {
@@ -323,6 +325,18 @@ fn replicated(v: &Verdicts, runs: usize, seed0: u64) -> (u64, u64) {
                 done.fetch_add(1, std::sync::atomic::Ordering::SeqCst);
                 let sets: Vec<_> = (0..n).map(|i| c.dataset(i)).collect();
                 let pk = sets[0].iter().find(|(k, _)| k.starts_with("nw ")).and_then(|(_, m)| m.get("k").cloned());
+                if cross {
+                    // whatever order the primary gave the writes of the two nodes, both secondaries got the same stream
+                    // from it after the issuing one had applied its own writes: they hold the same value
+                    let at = |i: usize| sets[i].iter().find(|(k, _)| k.starts_with("nw ")).and_then(|(_, m)| m.get("k").map(|x| x.0.clone()));
+                    if at(1) != at(2) {
+                        v.report(json!({"check": "newer", "mode": "replicated", "writers": "one-session-on-the-primary-one-on-a-secondary", "problem": "the-secondaries-hold-different-values"}),
+                            json!({"nodes": n, "writes": lines, "primary": pk, "issuing_secondary": at(1), "other_secondary": at(2),
+                                   "links_tail": c.link_log().iter().rev().take(40).rev().map(|l| format!("[{}] n{}->n{} {}", l.0, l.1, l.2, l.3)).collect::<Vec<_>>()}));
+                    }
+                    c.shutdown();
+                    continue;
+                }
                 for i in 1..n {
                     let ok = sets[i].iter().find(|(k, _)| k.starts_with("nw ")).and_then(|(_, m)| m.get("k").cloned());
                     if pk.as_ref().map(|x| &x.0) != ok.as_ref().map(|x| &x.0) {
